@@ -84,14 +84,85 @@ def stats(cases):
     return dict(d)
 
 
+# ---------------------------------------------------------------- several errors from concurrent threads
+def conc_case(rng, nth, ncalls):
+    """threads that mostly make FAILING calls (unmentioned method, argument no pattern accepts, exhausted chain ending in
+    panics(), ordered call out of turn) on shared patterns; every schedule decides how the recordings of the errors interleave"""
+    tag = [0]
+    def fresh():
+        tag[0] += 1
+        return tag[0]
+    ordered = rng.random() < 0.3
+    if ordered:
+        terms = [{"kind": "call", "mid": m, "opener": "next", "pat": {"matcher": 3, "dbg": fresh(), "ops": [("ret", fresh())]}} for m in (0, 2)]
+    else:
+        terms = [{"kind": "call", "mid": 0, "opener": "each", "pat": {"matcher": 3, "dbg": fresh(),
+                                                                       "ops": [("ret", fresh()), ("n", 1), ("then",), ("pan", fresh())]}},
+                 {"kind": "call", "mid": 2, "opener": "some", "pat": {"matcher": 255, "dbg": fresh(), "ops": [("ret", fresh())]}}]
+    failing = [(1, 0), (0, 5), (3, 1), (0, 0), (2, 1), (0, 1)]
+    threads = [[rng.choice(failing) for _ in range(ncalls or rng.randint(1, 2))] for _ in range(nth)]
+    return {"partial": False, "terms": terms, "threads": threads, "sched": []}
+
+
+class ConcurrentErrors:
+    """correspondence part: the real runtime under the controlled scheduler vs the Layer B model (every mock error is pushed
+    to the shared list in ONE critical section), on the same schedule; compared: every call's outcome and the verdict as the
+    multiset of (error kind, names) -- the text of EVERY error must be in the original's verification message"""
+    def __call__(self, rng, tier, seed, cases):
+        from .. import layer_b as B
+        from . import C10
+        eng = B.SchedEngine()
+        eng.build()
+        small = [conc_case(rng, 2, 1) for _ in range(10 if tier == "quick" else 40)] + [conc_case(rng, 3, 1) for _ in range(3 if tier == "quick" else 15)] \
+            + [conc_case(rng, 2, 2) for _ in range(2 if tier == "quick" else 10)]
+        base = eng.model(small)
+        ccases = []
+        for c, obs in zip(small, base):
+            counts = [n + 2 for n in C10.op_counts(obs, len(c["threads"]))]     # two spare steps per thread
+            scheds = list(B.all_schedules([min(n, 7) for n in counts]))
+            if len(scheds) > (60 if tier == "quick" else 400):
+                scheds = rng.sample(scheds, 60 if tier == "quick" else 400)
+            ccases += [dict(c, sched=s) for s in scheds]
+        for _ in range(100 if tier == "quick" else 1500):
+            c = conc_case(rng, rng.randint(2, 4), None)
+            total = sum(6 * len(t) for t in c["threads"])
+            c["sched"] = [rng.randrange(len(c["threads"])) for _ in range(rng.randint(0, total))]
+            ccases.append(c)
+        impl, model = eng.both(ccases)
+        bad = [i for i in range(len(ccases)) if B.results_only(B.project(impl[i])) != B.results_only(B.project(model[i]))]
+        cov = {"concurrent_part": {"evaluations": len(ccases), "rule": ConcurrentErrors.__doc__ + " / " + conc_case.__doc__,
+                                   "exhaustive_programs": len(small)}}
+        if not bad:
+            return len(ccases), None, cov
+        i = min(bad, key=lambda k: (sum(len(t) for t in ccases[k]["threads"]), len(ccases[k]["sched"])))
+        payload = {"property": "C08", "seed": seed, "part": "concurrent",
+                   "theorem_or_correspondence": "correspondence C08 (concurrent part): outcomes / verdict of the real runtime under the controlled scheduler vs the Layer B model "
+                                                "(C10_errors_are_exactly_the_panics) on the same schedule",
+                   "case": ccases[i], "harness_line": B.harness_line(ccases[i], "replay"), "coq_case": B.coq_case(ccases[i]),
+                   "expected_by_model": model[i], "observed_on_implementation": impl[i], "disagreeing_cases_in_run": len(bad),
+                   "replay_cmd": "./check C08 --replay <this file>"}
+        return len(ccases), payload, cov
+
+
 def engines(tier):
     return [Engine("C08", project=proj_kinds)]
 
 
 def run(tier, seed):
     return run_coexec("C08", tier, seed, module=MODULE, theorems=THEOREMS, gen_cases=gen_cases,
-                      nontrivial=nontrivial, rule=RULE, engines=engines(tier), stats=stats)
+                      nontrivial=nontrivial, rule=RULE, engines=engines(tier), stats=stats, parts=[ConcurrentErrors()])
 
 
 def replay(path):
+    import json
+    payload = json.load(open(path))
+    if payload.get("part") == "concurrent":
+        from .. import layer_b as B
+        from .. import common as C
+        eng = B.SchedEngine(); eng.build()
+        impl, model = eng.both([payload["case"]])
+        print("model:", model[0]); print("impl :", impl[0])
+        if B.results_only(B.project(impl[0])) != B.results_only(B.project(model[0])):
+            C.violation("C08", path); return 1
+        print("agree"); return 0
     return replay_coexec("C08", path, lambda p: Engine("C08", project=proj_kinds))
